@@ -49,6 +49,8 @@ class Session:
     def check(self, assertions, want_model=False, model_vars=()):
         """push; assert all; check-sat; pop.  returns (answer, seconds, model dict|None).
         any '(error' line makes the answer 'error' (inconclusive)."""
+        if getattr(self, 'T', None) is not None:
+            self.sync_terms(self.T)
         self.send('(push 1)')
         for a in assertions:
             self.send('(assert %s)' % a)
